@@ -730,4 +730,68 @@ Section Order.
       + unfold alookup. rewrite Enone. reflexivity.
       + intros k'. destruct (Z.eqb_spec k' k) as [->|_]; auto.
   Qed.
+
+  (* ---------------------------------------------------------------- String() *)
+  Lemma print_loop_chain h : forall l n fuel, length l < fuel -> chain h 0 n l None ->
+    print_loop fuel h (Some n) = entry h n :: map (entry h) l.
+  Proof.
+    induction l as [|m l IH]; intros n fuel Hf Hc; (destruct fuel as [|f]; [cbn in Hf; lia|]); cbn [print_loop map].
+    - cbn in Hc. rewrite Hc. destruct f; reflexivity.
+    - destruct Hc as [Hc1 Hc2]. rewrite Hc1. f_equal. apply IH; auto. cbn in Hf. lia.
+  Qed.
+
+  (* the printed form is the head line followed by one line per live node, in chain order *)
+  Lemma print_spec h ns : Rep h ns -> print h = entry h 0 :: map (entry h) ns.
+  Proof.
+    intros R. unfold print. apply print_loop_chain.
+    - pose proof (Rep_length _ _ R). lia.
+    - pose proof (rep_chain _ _ R 0 levels_pos) as Hc. rewrite at_level_0 in Hc; auto.
+      pose proof (rep_ids _ _ R) as H. rewrite Forall_forall in *. intros x Hx. specialize (H x Hx). lia.
+  Qed.
+
+  Lemma chain_succ h L : forall l n0 x m, chain h L n0 l None -> In x l -> finger h x L = Some m ->
+    exists l1 l2, l = l1 ++ x :: m :: l2.
+  Proof.
+    intros l n0 x m Hc Hx Hf. apply in_split in Hx. destruct Hx as (l1 & l2 & E). subst l.
+    apply chain_app in Hc. destruct Hc as [_ Hc]. cbn [chain] in Hc. destruct Hc as [_ Hc].
+    destruct l2 as [|d l2]; cbn [chain] in Hc.
+    - congruence.
+    - destruct Hc as [Hd _]. assert (d = m) by congruence. subst d. exists l1, l2. reflexivity.
+  Qed.
+
+  (* forward pointers only to larger live keys *)
+  Lemma finger_larger h ns n L m : Rep h ns -> In n ns -> finger h n L = Some m ->
+    In m ns /\ ltk (keyof h n) (keyof h m).
+  Proof.
+    intros R Hn Hf.
+    assert (HL : L < height h n).
+    { destruct (Nat.lt_ge_cases L (height h n)) as [H|H]; auto. rewrite finger_oob in Hf by exact H. discriminate. }
+    assert (HLl : L < levels).
+    { pose proof (rep_ids _ _ R) as H. rewrite Forall_forall in H. specialize (H n Hn). lia. }
+    assert (Hin : In n (at_level h L ns)) by (apply at_level_in; auto).
+    destruct (chain_succ h L _ 0 n m (rep_chain _ _ R L HLl) Hin Hf) as (l1 & l2 & E).
+    split.
+    - assert (Hm : In m (at_level h L ns)) by (rewrite E; apply in_or_app; right; right; left; reflexivity).
+      apply at_level_in in Hm. tauto.
+    - pose proof (SS_map_filter ltk (keyof h) (fun x => L <? height h x) ns (rep_sorted _ _ R)) as Hs.
+      fold (at_level h L ns) in Hs. rewrite E, map_app in Hs. apply SS_app_r in Hs. cbn [map] in Hs.
+      apply StronglySorted_inv in Hs. destruct Hs as [_ Hs]. apply Forall_cons_iff in Hs. tauto.
+  Qed.
+
+  Definition finger_ok (ks : list Z) (e : Z * list (option Z)) : Prop :=
+    Forall (fun f => match f with None => True | Some k' => ltk (fst e) k' /\ In k' ks end) (snd e).
+
+  Lemma print_rep h ns : Rep h ns ->
+    exists hd body, print h = hd :: body /\ map fst body = keys h ns /\ Forall (finger_ok (keys h ns)) body.
+  Proof.
+    intros R. exists (entry h 0), (map (entry h) ns). split; [apply print_spec; exact R|]. split.
+    - rewrite map_map. reflexivity.
+    - rewrite Forall_forall. intros e He. apply in_map_iff in He. destruct He as (n & <- & Hn).
+      unfold finger_ok, entry. cbn [fst snd]. rewrite Forall_forall. intros f Hf.
+      apply in_map_iff in Hf. destruct Hf as (o & <- & Ho).
+      destruct o as [m|]; cbn [option_map]; auto.
+      destruct (In_nth _ _ None Ho) as (L & _ & EL). fold (finger h n L) in EL.
+      destruct (finger_larger h ns n L m R Hn EL) as [Hm Hlt]. split; auto.
+      unfold keys. apply in_map. exact Hm.
+  Qed.
 End Order.
